@@ -113,9 +113,11 @@ theorem decChildren_childBytes :
         exact hsmall t' (List.mem_cons_of_mem _ ht')
 
 /-- the flag bytes written by `GobEncode` are read back correctly by `GobDecode` (re-checked on every run against the
-regenerated constants; any pair of bytes with this property keeps the round trip) -/
+regenerated constants; any pair of bytes with this property keeps the round trip; all recognised sites of GobEncode
+must write the same pair, because the model has one `encRecord`) -/
 theorem genFinal_consistent :
-    Gen.Dawg.foundFinal = true ∧ Gen.Dawg.decFinalSet Gen.Dawg.finalTrueByte = true ∧
+    (Gen.Dawg.finalTrueSites.all (· == Gen.Dawg.finalTrueByte) && Gen.Dawg.finalFalseSites.all (· == Gen.Dawg.finalFalseByte)) = true ∧
+      Gen.Dawg.decFinalSet Gen.Dawg.finalTrueByte = true ∧
       Gen.Dawg.decFinalSet Gen.Dawg.finalFalseByte = false := by decide
 
 theorem decRecords_one (ts : Heap) (k idx nw : Nat) (fin : Bool) (labs tgts rest : List Nat) (n0 : Node)
